@@ -318,6 +318,10 @@ def applyFn (kind : String) (args : List V) (kwargs : List (String × V)) : Exce
   | "stop_if_neg", [v] => match asInt v with
     | some i => if i < 0 then .ok .stop else .ok v
     | none => .ok v
+  | "stop_if_truthy", [v] => .ok (if truthy v then .stop else v)
+  | "stop_if_falsy", [v] => .ok (if truthy v then v else .stop)
+  | "skip_if_truthy", [v] => .ok (if truthy v then .skip else v)
+  | "skip_if_falsy", [v] => .ok (if truthy v then v else .skip)
   | "wrap", [v] => .ok (.list [v])
   | "truthy", [v] => .ok (.bool (truthy v))
   | "is_none", [v] => .ok (.bool (match v with | .none => true | _ => false))
